@@ -211,6 +211,7 @@ func slotInfixFn(p *Parser, left ast.Expression) ast.Expression { return nil }
 //@   ensures [cep@C04] p.currentExpressionPrecedence == old(p.currentExpressionPrecedence)
 //@   ensures [errors-grow@C11] isPrefixErr(old(p.errors), p.errors)
 //@   ensures [measure@C11] parserMeasure(p) <= old(parserMeasure(p))
+//@   termination [term@C11] parserMeasure(p)
 
 // Errors are reported at six sites only (ExpectToken, ExpectSemicolonASI -- the one mode-dependent site --, the unclosed
 // block, the missing prefix function, the two numeric conversions); every other parse function reports none of its own,
@@ -245,6 +246,11 @@ func slotInfixFn(p *Parser, left ast.Expression) ast.Expression { return nil }
 //@ group exprResult
 //@   ensures [err-on-nil@C11,C13] implies(isNil(result), len(p.errors) > len(old(p.errors)))
 
+// Prefix and infix parse functions are entered with the token that selected them current -- never the end of input (no
+// operator is registered on EOF: hypothesis of the dispatchers), so their first token step strictly decreases the measure.
+//@ group atToken
+//@   requires [at-token@C11] p.CurrentToken.Type != token.EOF
+
 // ... or because the operand it was handed was already nil.
 //@ group infixResult
 //@   ensures [err-on-nil@C11,C13] implies(isNil(result), len(p.errors) > len(old(p.errors)) || isNil(left))
@@ -253,21 +259,25 @@ func slotInfixFn(p *Parser, left ast.Expression) ast.Expression { return nil }
 //@   props C04 C11 C16
 //@   abstract
 //@   use parseFrame stmtResult
+//@   rank 90
 
 //@ func slotExprFn(p, precedence)
 //@   props C04 C11 C16
 //@   abstract
 //@   use parseFrame exprResult
+//@   rank 65
 
 //@ func slotPrefixFn(p)
 //@   props C04 C11 C16
 //@   abstract
-//@   use parseFrame exprResult
+//@   use parseFrame exprResult atToken
+//@   rank 50
 
 //@ func slotInfixFn(p, left)
 //@   props C04 C11 C16
 //@   abstract
-//@   use parseFrame infixResult
+//@   use parseFrame infixResult atToken
+//@   rank 50
 
 // The context stack is exclusively owned by its field: PopContext reslices it and PushContext appends in place.
 //@ owned Parser.contextStack
@@ -287,10 +297,12 @@ func lemma_parseFrame_trans(p *Parser) {
 //@ func lemma_parseFrame_refl(p)
 //@   props C04 C05 C11 C16
 //@   use parseFrame
+//@   norank *
 
 //@ func lemma_parseFrame_trans(p)
 //@   props C04 C05 C11 C16
 //@   use parseFrame
+//@   norank *
 
 // ---- context stack (C16) ----
 
@@ -344,7 +356,9 @@ func lemma_parseFrame_trans(p *Parser) {
 //@ func (p *Parser) ExpectToken(t)
 //@   props C11 C16
 //@   use parseFrame ctxStable
+//@   rank 1
 //@   ensures [ok] implies(result, eq(p.CurrentToken, old(p.PeekToken)) && p.CurrentToken.Type == t && len(p.errors) == len(old(p.errors)))
+//@   ensures [advance@C11] implies(result && old(p.CurrentToken.Type) != token.EOF, parserMeasure(p) < old(parserMeasure(p)))
 //@   ensures [fail] implies(!result, len(p.errors) == len(old(p.errors))+1 && eq(p.CurrentToken, old(p.CurrentToken)) && eq(p.PeekToken, old(p.PeekToken)))
 
 // Statement termination. Stated where ECMAScript fixes the answer: an explicit ';' is consumed; end of input and '}'
@@ -353,6 +367,7 @@ func lemma_parseFrame_trans(p *Parser) {
 //@ func (p *Parser) ExpectSemicolonASI()
 //@   props C11 C16 C13 C02 C06
 //@   use parseFrame ctxStable
+//@   rank 1
 //@   ensures [fail] implies(!result, len(p.errors) == len(old(p.errors))+1)
 //@   ensures [ok] implies(result, len(p.errors) == len(old(p.errors)))
 //@   ensures [tolerant@C13] implies(p.tolerantMode, result && len(p.errors) == len(old(p.errors)))
@@ -369,6 +384,7 @@ func lemma_parseFrame_trans(p *Parser) {
 //@ func baseParseStatement(p)
 //@   props C11 C16 C04 C02
 //@   use parseFrame stmtResult ctxStable
+//@   rank 88
 //@   ensures [dispatch@C02] ncalls("(*Parser).ParseLetStatement") == ite(old(p.CurrentToken.Type) == token.LET, 1, 0) && ncalls("(*Parser).ParseFunctionStatement") == ite(old(p.CurrentToken.Type) == token.FUNCTION, 1, 0) && ncalls("(*Parser).ParseReturnStatement") == ite(old(p.CurrentToken.Type) == token.RETURN, 1, 0) && ncalls("(*Parser).ParseIfStatement") == ite(old(p.CurrentToken.Type) == token.IF, 1, 0) && ncalls("(*Parser).ParseWhileStatement") == ite(old(p.CurrentToken.Type) == token.WHILE, 1, 0) && ncalls("(*Parser).ParseForStatement") == ite(old(p.CurrentToken.Type) == token.FOR, 1, 0) && ncalls("(*Parser).ParseBlockStatement") == ite(old(p.CurrentToken.Type) == token.LBRACE, 1, 0)
 //@   ensures [dispatch.default@C02] ncalls("(*Parser).ParseExpressionStatement") == ite(old(p.CurrentToken.Type) != token.LET && old(p.CurrentToken.Type) != token.FUNCTION && old(p.CurrentToken.Type) != token.RETURN && old(p.CurrentToken.Type) != token.IF && old(p.CurrentToken.Type) != token.WHILE && old(p.CurrentToken.Type) != token.FOR && old(p.CurrentToken.Type) != token.LBRACE, 1, 0)
 //@   atcall * [dispatch.first@C02,C04] eq(p.CurrentToken, old(p.CurrentToken)) && eq(p.PeekToken, old(p.PeekToken))
@@ -377,12 +393,14 @@ func lemma_parseFrame_trans(p *Parser) {
 //@ func baseParseExpression(p, precedence)
 //@   props C11 C16 C04 C02
 //@   use parseFrame ctxStable exprResult
+//@   rank 60
 //@   ensures [shape@C02,C04] ncalls("(*Parser).ParsePrefixExpression") == 1 && ncalls("(*Parser).ParseRemainingExpressionWithPrecedence") == 1 && callOrder("(*Parser).ParsePrefixExpression", 0, "(*Parser).ParseRemainingExpressionWithPrecedence", 0) && callArg[int]("(*Parser).ParseRemainingExpressionWithPrecedence", 0, 2) == precedence && callArg[ast.Expression]("(*Parser).ParseRemainingExpressionWithPrecedence", 0, 1) == callResult[ast.Expression]("(*Parser).ParsePrefixExpression", 0)
 //@   ensures [result@C02,C04] result == callResult[ast.Expression]("(*Parser).ParseRemainingExpressionWithPrecedence", 0)
 
 //@ func (p *Parser) ParseLetStatement()
 //@   props C11 C16 C01 C13
 //@   use parseFrame ctxStable viaSlot errorSites
+//@   rank 80
 //@   ensures [wf@C11] implies(len(p.errors) == len(old(p.errors)) && result != nil, result.Name != nil && (result.Value == nil || !isNil(result.Value)))
 //@   ensures [node@C01,C08,C15] implies(result != nil, eq(result.Token, old(p.CurrentToken)) && result.Name != nil && result.Name.Value == result.Name.Token.Literal)
 //@   ensures [err-on-nil] implies(result == nil, len(p.errors) > len(old(p.errors)))
@@ -390,11 +408,13 @@ func lemma_parseFrame_trans(p *Parser) {
 //@ func (p *Parser) ParseLetExpression()
 //@   props C11 C16 C13
 //@   use parseFrame ctxStable exprResult errorSites
+//@   rank 75
 //@   ensures [wf@C11] implies(len(p.errors) == len(old(p.errors)) && !isNil(result), isType[*ast.LetExpression](result) && result.(*ast.LetExpression).Name != nil && (result.(*ast.LetExpression).Value == nil || !isNil(result.(*ast.LetExpression).Value)))
 
 //@ func (p *Parser) ParseFunctionStatement()
 //@   props C11 C16 C01 C13
 //@   use parseFrame viaSlot errorSites
+//@   rank 80
 //@   ensures [wf@C11] implies(len(p.errors) == len(old(p.errors)) && result != nil, result.Name != nil && result.Body != nil && forall(0, len(result.Parameters), func(k int) bool { return result.Parameters[k] != nil }))
 //@   ensures [node@C01,C08,C15] implies(result != nil, eq(result.Token, old(p.CurrentToken)) && result.Name != nil && result.Name.Value == result.Name.Token.Literal && result.Body == callResult[*ast.BlockStatement]("(*Parser).ParseBlockStatement", 0))
 //@   atcall (*Parser).ParseBlockStatement [ctx.function@C16] sameCtx(p.contextStack, push(old(p.contextStack), FunctionContext))
@@ -405,6 +425,7 @@ func lemma_parseFrame_trans(p *Parser) {
 //@ func (p *Parser) ParseFunctionParameters()
 //@   props C11 C16 C13
 //@   use parseFrame ctxStable errorSites
+//@   rank 30
 //@   ensures [wf@C11] forall(0, len(result), func(k int) bool { return result[k] != nil })
 //@   loop 1 invariant [wf@C11] forall(0, len(identifiers), func(k int) bool { return identifiers[k] != nil })
 //@   loop 1 invariant [frame] parserInv(p) && sameCtx(p.contextStack, old(p.contextStack)) && p.currentExpressionPrecedence == old(p.currentExpressionPrecedence) && isPrefixErr(old(p.errors), p.errors) && parserMeasure(p) <= old(parserMeasure(p))
@@ -414,6 +435,7 @@ func lemma_parseFrame_trans(p *Parser) {
 //@ func (p *Parser) ParseReturnStatement()
 //@   props C11 C16 C02 C13
 //@   use parseFrame ctxStable viaSlot errorSites
+//@   rank 80
 //@   ensures [wf@C11] implies(len(p.errors) == len(old(p.errors)) && result != nil, result.ReturnValue == nil || !isNil(result.ReturnValue))
 //@   ensures [restricted@C02] implies(old(p.PeekToken.AfterNewline), ncalls("(*Parser).ParseExpression") == 0)
 //@   ensures [operand@C02] implies(!old(p.PeekToken.AfterNewline) && old(p.PeekToken.Type) != token.SEMICOLON && old(p.PeekToken.Type) != token.EOF && old(p.PeekToken.Type) != token.RBRACE, ncalls("(*Parser).ParseExpression") == 1)
@@ -422,6 +444,7 @@ func lemma_parseFrame_trans(p *Parser) {
 //@ func (p *Parser) ParseIfStatement()
 //@   props C11 C16 C01 C13
 //@   use parseFrame ctxStable viaSlot errorSites
+//@   rank 80
 //@   ensures [wf@C11] implies(len(p.errors) == len(old(p.errors)) && result != nil, !isNil(result.Condition) && !isNil(result.ThenBranch) && (result.ElseBranch == nil || !isNil(result.ElseBranch)))
 //@   ensures [node@C01,C08,C15] implies(result != nil, eq(result.Token, old(p.CurrentToken)))
 //@   ensures [err-on-nil] implies(result == nil, len(p.errors) > len(old(p.errors)))
@@ -429,6 +452,7 @@ func lemma_parseFrame_trans(p *Parser) {
 //@ func (p *Parser) ParseWhileStatement()
 //@   props C11 C16 C01 C13
 //@   use parseFrame ctxStable viaSlot errorSites
+//@   rank 80
 //@   ensures [wf@C11] implies(len(p.errors) == len(old(p.errors)) && result != nil, !isNil(result.Condition) && !isNil(result.Body))
 //@   ensures [node@C01,C08,C15] implies(result != nil, eq(result.Token, old(p.CurrentToken)))
 //@   ensures [err-on-nil] implies(result == nil, len(p.errors) > len(old(p.errors)))
@@ -436,15 +460,17 @@ func lemma_parseFrame_trans(p *Parser) {
 //@ func (p *Parser) ParseForStatement()
 //@   props C11 C16 C01 C13
 //@   use parseFrame ctxStable viaSlot errorSites
+//@   rank 80
 //@   ensures [wf@C11] implies(len(p.errors) == len(old(p.errors)) && result != nil, (result.Init == nil || !isNil(result.Init)) && (result.Condition == nil || !isNil(result.Condition)) && (result.Update == nil || !isNil(result.Update)) && !isNil(result.Body))
 //@   ensures [node@C01,C08,C15] implies(result != nil, eq(result.Token, old(p.CurrentToken)))
 //@   ensures [err-on-nil] implies(result == nil, len(p.errors) > len(old(p.errors)))
 
 //@ func (p *Parser) ParseBlockStatement()
 //@   props C11 C16 C13 C01 C15 C02
-//@   use parseFrame viaSlot
+//@   use parseFrame viaSlot atToken
+//@   rank 80
 //@   atcall slotStmtFn [ctx.block@C16] sameCtx(p.contextStack, push(old(p.contextStack), BlockContext))
-//@   loop 1 invariant [frame] parserInv(p) && sameCtx(p.contextStack, push(old(p.contextStack), BlockContext)) && p.currentExpressionPrecedence == old(p.currentExpressionPrecedence) && isPrefixErr(old(p.errors), p.errors) && parserMeasure(p) <= old(parserMeasure(p))
+//@   loop 1 invariant [frame] parserInv(p) && sameCtx(p.contextStack, push(old(p.contextStack), BlockContext)) && p.currentExpressionPrecedence == old(p.currentExpressionPrecedence) && isPrefixErr(old(p.errors), p.errors) && parserMeasure(p) < old(parserMeasure(p))
 //@   loop 1 decreases parserMeasure(p) + b2i(p.CurrentToken.Type != token.EOF)
 //@   loop 1 invariant [block] block != nil && forall(0, len(block.Statements), func(i int) bool { return !isNil(block.Statements[i]) })
 //@   ensures [nonnil] result != nil
@@ -455,35 +481,43 @@ func lemma_parseFrame_trans(p *Parser) {
 //@ func (p *Parser) ParseStatement()
 //@   props C11 C16 C13
 //@   use parseFrame stmtResult ctxStable viaSlot errorSites
+//@   rank 95
 
 //@ func (p *Parser) ParseExpressionStatement()
 //@   props C11 C16 C13
 //@   use parseFrame ctxStable viaSlot errorSites
+//@   rank 80
 //@   ensures [wf@C11] implies(len(p.errors) == len(old(p.errors)) && result != nil, !isNil(result.Expression))
 //@   ensures [err-on-nil] implies(result == nil, len(p.errors) > len(old(p.errors)))
 
 //@ func (p *Parser) ParsePrefixExpression()
 //@   props C11 C16 C04 C02
 //@   use parseFrame ctxStable exprResult
+//@   rank 55
 //@   ensures [unknown-prefix@C11] implies(!old(has(p.prefixParseFns, p.CurrentToken.Type)), isNil(result) && len(p.errors) == len(old(p.errors))+1)
 //@   ensures [dispatch@C02,C04] implies(old(has(p.prefixParseFns, p.CurrentToken.Type)) && ncalls("slotPrefixFn") == 1, result == callResult[ast.Expression]("slotPrefixFn", 0))
 //@   atcall slotPrefixFn [first-token@C04] eq(p.CurrentToken, old(p.CurrentToken)) && eq(p.PeekToken, old(p.PeekToken))
+//@   assumes [eof.no-prefix] p.prefixParseFns[token.EOF] == nil
 
 //@ func (p *Parser) ParseInfixExpression(left)
 //@   props C11 C16 C02 C13
 //@   use parseFrame ctxStable infixResult errorSites
+//@   rank 57
 //@   ensures [no-infix@C02] implies(!old(has(p.infixParseFns, p.PeekToken.Type)), result == left && eq(p.PeekToken, old(p.PeekToken)))
 //@   ensures [progress@C11] implies(old(p.infixParseFns[p.PeekToken.Type] != nil) && old(p.PeekToken.Type) != token.EOF, parserMeasure(p) < old(parserMeasure(p)))
 //@   atcall slotInfixFn [operator-current@C02] eq(p.CurrentToken, old(p.PeekToken)) && arg_left == left
+//@   assumes [eof.no-infix] p.infixParseFns[token.EOF] == nil
 
 //@ func (p *Parser) ParseExpression()
 //@   props C11 C16 C02 C13
 //@   use parseFrame ctxStable exprResult viaSlot errorSites
+//@   rank 70
 //@   ensures [level@C02] ncalls("slotExprFn") == 1 && callArg[int]("slotExprFn", 0, 1) == LOWEST && callArg[*Parser]("slotExprFn", 0, 0) == p && result == callResult[ast.Expression]("slotExprFn", 0)
 
 //@ func (p *Parser) ParseExpressionWithPrecedence(precedence)
 //@   props C11 C16 C02 C13
 //@   use parseFrame ctxStable exprResult viaSlot errorSites
+//@   rank 70
 //@   ensures [level@C02] ncalls("slotExprFn") == 1 && callArg[int]("slotExprFn", 0, 1) == precedence && callArg[*Parser]("slotExprFn", 0, 0) == p && result == callResult[ast.Expression]("slotExprFn", 0)
 
 // The climbing loop. It continues only while the next token binds strictly tighter than the requested level (left
@@ -492,6 +526,7 @@ func lemma_parseFrame_trans(p *Parser) {
 //@ func (p *Parser) ParseRemainingExpressionWithPrecedence(left, precedence)
 //@   props C11 C16 C13 C02
 //@   use parseFrame ctxStable infixResult errorSites
+//@   rank 58
 //@   atcall (*Parser).ParseInfixExpression [climb.strict@C02] p.PeekToken.Type != token.SEMICOLON && precedence < specLevel(p.precedences, p.PeekToken.Type)
 //@   atcall (*Parser).ParseInfixExpression [smart.nocut@C13] !(p.smartSemicolons && p.PeekToken.AfterNewline && (p.PeekToken.Type == token.LPAREN || p.PeekToken.Type == token.LBRACKET))
 //@   atcall (*Parser).ParseInfixExpression [restricted.postfix@C02,C13] !(p.PeekToken.AfterNewline && (p.PeekToken.Type == token.INCREMENT || p.PeekToken.Type == token.DECREMENT))
@@ -505,89 +540,103 @@ func lemma_parseFrame_trans(p *Parser) {
 //@ func (p *Parser) ParseRemainingExpression(left)
 //@   props C11 C16 C04 C13
 //@   use parseFrame ctxStable infixResult errorSites
+//@   rank 59
 //@   ensures [same-level@C04] ncalls("(*Parser).ParseRemainingExpressionWithPrecedence") == 1 && callArg[int]("(*Parser).ParseRemainingExpressionWithPrecedence", 0, 2) == old(p.currentExpressionPrecedence) && callArg[ast.Expression]("(*Parser).ParseRemainingExpressionWithPrecedence", 0, 1) == left && result == callResult[ast.Expression]("(*Parser).ParseRemainingExpressionWithPrecedence", 0)
 
 //@ func (p *Parser) ParseIdentifier()
 //@   props C11 C16 C01 C07 C13
-//@   use parseFrame ctxStable exprResult errorSites
+//@   use parseFrame ctxStable exprResult errorSites atToken
+//@   rank 40
 //@   ensures [node@C01,C07,C08,C15] isType[*ast.Identifier](result) && !isNil(result) && eq(result.(*ast.Identifier).Token, old(p.CurrentToken)) && result.(*ast.Identifier).Value == old(p.CurrentToken.Literal)
 //@   ensures [no-token@C01] ncalls("(*Parser).NextToken") == 0 && lexer.LexPos(p.lexer) == old(lexer.LexPos(p.lexer))
 
 //@ func (p *Parser) ParseIntegerLiteral()
 //@   props C11 C16 C01 C07
-//@   use parseFrame ctxStable exprResult
+//@   use parseFrame ctxStable exprResult atToken
+//@   rank 40
 //@   ensures [node@C01,C07,C08,C15] implies(!isNil(result), isType[*ast.IntegerLiteral](result) && eq(result.(*ast.IntegerLiteral).Token, old(p.CurrentToken)))
 //@   ensures [no-token@C01] ncalls("(*Parser).NextToken") == 0 && lexer.LexPos(p.lexer) == old(lexer.LexPos(p.lexer))
 
 //@ func (p *Parser) ParseFloatLiteral()
 //@   props C11 C16 C01 C07
-//@   use parseFrame ctxStable exprResult
+//@   use parseFrame ctxStable exprResult atToken
+//@   rank 40
 //@   ensures [node@C01,C07,C08,C15] implies(!isNil(result), isType[*ast.FloatLiteral](result) && eq(result.(*ast.FloatLiteral).Token, old(p.CurrentToken)))
 //@   ensures [no-token@C01] ncalls("(*Parser).NextToken") == 0 && lexer.LexPos(p.lexer) == old(lexer.LexPos(p.lexer))
 
 //@ func (p *Parser) ParseStringLiteral()
 //@   props C11 C16 C01 C07 C13
-//@   use parseFrame ctxStable exprResult errorSites
+//@   use parseFrame ctxStable exprResult errorSites atToken
+//@   rank 40
 //@   ensures [node@C01,C07,C08,C15] isType[*ast.StringLiteral](result) && !isNil(result) && eq(result.(*ast.StringLiteral).Token, old(p.CurrentToken)) && result.(*ast.StringLiteral).Value == old(p.CurrentToken.Literal)
 //@   ensures [no-token@C01] ncalls("(*Parser).NextToken") == 0 && lexer.LexPos(p.lexer) == old(lexer.LexPos(p.lexer))
 
 //@ func (p *Parser) ParseMultiStringLiteral()
 //@   props C11 C16 C01 C07 C13
-//@   use parseFrame ctxStable exprResult errorSites
+//@   use parseFrame ctxStable exprResult errorSites atToken
+//@   rank 40
 //@   ensures [node@C01,C07,C08,C15] isType[*ast.MultiStringLiteral](result) && !isNil(result) && eq(result.(*ast.MultiStringLiteral).Token, old(p.CurrentToken)) && result.(*ast.MultiStringLiteral).Value == old(p.CurrentToken.Literal)
 //@   ensures [no-token@C01] ncalls("(*Parser).NextToken") == 0 && lexer.LexPos(p.lexer) == old(lexer.LexPos(p.lexer))
 
 //@ func (p *Parser) ParseBooleanLiteral()
 //@   props C11 C16 C01 C07 C13
-//@   use parseFrame ctxStable exprResult errorSites
+//@   use parseFrame ctxStable exprResult errorSites atToken
+//@   rank 40
 //@   ensures [node@C01,C07,C08,C15] isType[*ast.BooleanLiteral](result) && !isNil(result) && eq(result.(*ast.BooleanLiteral).Token, old(p.CurrentToken)) && result.(*ast.BooleanLiteral).Value == (old(p.CurrentToken.Type) == token.TRUE)
 //@   ensures [no-token@C01] ncalls("(*Parser).NextToken") == 0 && lexer.LexPos(p.lexer) == old(lexer.LexPos(p.lexer))
 
 //@ func (p *Parser) ParseNullLiteral()
 //@   props C11 C16 C01 C07 C13
-//@   use parseFrame ctxStable exprResult errorSites
+//@   use parseFrame ctxStable exprResult errorSites atToken
+//@   rank 40
 //@   ensures [node@C01,C07,C08,C15] isType[*ast.NullLiteral](result) && !isNil(result) && eq(result.(*ast.NullLiteral).Token, old(p.CurrentToken))
 //@   ensures [no-token@C01] ncalls("(*Parser).NextToken") == 0 && lexer.LexPos(p.lexer) == old(lexer.LexPos(p.lexer))
 
 //@ func (p *Parser) ParseUnaryExpression()
 //@   props C11 C16 C02 C01 C13
-//@   use parseFrame ctxStable exprResult viaSlot errorSites
+//@   use parseFrame ctxStable exprResult viaSlot errorSites atToken
+//@   rank 45
 //@   ensures [wf@C11] implies(len(p.errors) == len(old(p.errors)), !isNil(result.(*ast.UnaryExpression).Right))
 //@   ensures [operand.level@C02] ncalls("(*Parser).NextToken") == 1 && ncalls("slotExprFn") == 1 && callOrder("(*Parser).NextToken", 0, "slotExprFn", 0) && callArg[int]("slotExprFn", 0, 1) == UNARY && callArg[*Parser]("slotExprFn", 0, 0) == p
 //@   ensures [node@C01,C08,C15] isType[*ast.UnaryExpression](result) && !isNil(result) && eq(result.(*ast.UnaryExpression).Token, old(p.CurrentToken)) && result.(*ast.UnaryExpression).Operator == old(p.CurrentToken.Literal) && result.(*ast.UnaryExpression).Right == callResult[ast.Expression]("slotExprFn", 0)
 
 //@ func (p *Parser) ParsePostfixExpression(left)
 //@   props C11 C16 C01 C02 C13
-//@   use parseFrame ctxStable exprResult infixResult errorSites
+//@   use parseFrame ctxStable exprResult infixResult errorSites atToken
+//@   rank 40
 //@   ensures [wf@C11] implies(!isNil(left), !isNil(result.(*ast.PostfixExpression).Left))
 //@   ensures [node@C01,C08,C15] isType[*ast.PostfixExpression](result) && !isNil(result) && eq(result.(*ast.PostfixExpression).Token, old(p.CurrentToken)) && result.(*ast.PostfixExpression).Operator == old(p.CurrentToken.Literal) && result.(*ast.PostfixExpression).Left == left
 //@   ensures [no-token@C02] ncalls("(*Parser).NextToken") == 0 && ncalls("slotExprFn") == 0 && lexer.LexPos(p.lexer) == old(lexer.LexPos(p.lexer))
 
 //@ func (p *Parser) ParseGroupedExpression()
 //@   props C11 C16 C01 C02 C13
-//@   use parseFrame ctxStable exprResult errorSites
+//@   use parseFrame ctxStable exprResult errorSites atToken
+//@   rank 45
 //@   ensures [wf@C11] implies(len(p.errors) == len(old(p.errors)) && !isNil(result), !isNil(result.(*ast.GroupedExpression).Expression))
 //@   ensures [inner.level@C02] ncalls("(*Parser).ParseExpression") == 1 && ncalls("slotExprFn") == 0
 //@   ensures [node@C01,C08,C15] implies(!isNil(result), isType[*ast.GroupedExpression](result) && eq(result.(*ast.GroupedExpression).Token, old(p.CurrentToken)) && result.(*ast.GroupedExpression).Expression == callResult[ast.Expression]("(*Parser).ParseExpression", 0) && eq(result.(*ast.GroupedExpression).RParen, p.CurrentToken) && p.CurrentToken.Type == token.RPAREN)
 
 //@ func (p *Parser) ParseArrayLiteral()
 //@   props C11 C16 C01 C13
-//@   use parseFrame ctxStable exprResult errorSites
+//@   use parseFrame ctxStable exprResult errorSites atToken
+//@   rank 45
 //@   ensures [wf@C11] implies(len(p.errors) == len(old(p.errors)), forall(0, len(result.(*ast.ArrayLiteral).Elements), func(k int) bool { return !isNil(result.(*ast.ArrayLiteral).Elements[k]) }))
 //@   ensures [node@C01,C08,C15] isType[*ast.ArrayLiteral](result) && !isNil(result) && eq(result.(*ast.ArrayLiteral).Token, old(p.CurrentToken)) && eq(result.(*ast.ArrayLiteral).RBracket, p.CurrentToken)
 
 //@ func (p *Parser) ParseObjectLiteral()
 //@   props C11 C16 C01 C13
-//@   use parseFrame ctxStable exprResult errorSites
+//@   use parseFrame ctxStable exprResult errorSites atToken
+//@   rank 45
 //@   ensures [wf@C11] implies(len(p.errors) == len(old(p.errors)) && !isNil(result), forall(0, len(result.(*ast.ObjectLiteral).Properties), func(k int) bool { return !isNil(result.(*ast.ObjectLiteral).Properties[k].Key) && !isNil(result.(*ast.ObjectLiteral).Properties[k].Value) }))
 //@   loop 1 invariant [wf@C11] implies(len(p.errors) == len(old(p.errors)), forall(0, len(obj.Properties), func(k int) bool { return !isNil(obj.Properties[k].Key) && !isNil(obj.Properties[k].Value) }))
 //@   ensures [node@C01,C08,C15] implies(!isNil(result), isType[*ast.ObjectLiteral](result) && eq(result.(*ast.ObjectLiteral).Token, old(p.CurrentToken)))
-//@   loop 1 invariant [frame] parserInv(p) && sameCtx(p.contextStack, old(p.contextStack)) && p.currentExpressionPrecedence == old(p.currentExpressionPrecedence) && isPrefixErr(old(p.errors), p.errors) && obj != nil && parserMeasure(p) <= old(parserMeasure(p))
+//@   loop 1 invariant [frame] parserInv(p) && sameCtx(p.contextStack, old(p.contextStack)) && p.currentExpressionPrecedence == old(p.currentExpressionPrecedence) && isPrefixErr(old(p.errors), p.errors) && obj != nil && parserMeasure(p) < old(parserMeasure(p))
 //@   loop 1 decreases parserMeasure(p)
 
 //@ func (p *Parser) ParseFunctionExpression()
 //@   props C11 C16 C13 C01
-//@   use parseFrame exprResult viaSlot errorSites
+//@   use parseFrame exprResult viaSlot errorSites atToken
+//@   rank 45
 //@   ensures [wf@C11] implies(len(p.errors) == len(old(p.errors)) && !isNil(result), result.(*ast.FunctionExpression).Body != nil && forall(0, len(result.(*ast.FunctionExpression).Parameters), func(k int) bool { return result.(*ast.FunctionExpression).Parameters[k] != nil }))
 //@   ensures [node@C01,C08,C15] implies(!isNil(result), isType[*ast.FunctionExpression](result) && eq(result.(*ast.FunctionExpression).Token, old(p.CurrentToken)) && result.(*ast.FunctionExpression).Body == callResult[*ast.BlockStatement]("(*Parser).ParseBlockStatement", 0))
 //@   atcall (*Parser).ParseBlockStatement [ctx.function@C16] sameCtx(p.contextStack, push(old(p.contextStack), FunctionContext))
@@ -598,7 +647,8 @@ func lemma_parseFrame_trans(p *Parser) {
 // per-parser table while the operator is the current token.
 //@ func (p *Parser) ParseBinaryExpression(left)
 //@   props C11 C16 C02 C01 C05 C13
-//@   use parseFrame ctxStable exprResult infixResult viaSlot errorSites
+//@   use parseFrame ctxStable exprResult infixResult viaSlot errorSites atToken
+//@   rank 45
 //@   ensures [wf@C11] implies(len(p.errors) == len(old(p.errors)) && !isNil(left), !isNil(result.(*ast.BinaryExpression).Left) && !isNil(result.(*ast.BinaryExpression).Right))
 //@   ensures [operand.level@C02,C03,C05] ncalls("(*Parser).NextToken") == 1 && ncalls("slotExprFn") == 1 && callOrder("(*Parser).NextToken", 0, "slotExprFn", 0) && callArg[int]("slotExprFn", 0, 1) == specLevel(p.precedences, old(p.CurrentToken.Type)) && callArg[*Parser]("slotExprFn", 0, 0) == p
 //@   ensures [node@C01,C08,C15] isType[*ast.BinaryExpression](result) && !isNil(result) && eq(result.(*ast.BinaryExpression).Token, old(p.CurrentToken)) && result.(*ast.BinaryExpression).Operator == old(p.CurrentToken.Literal) && result.(*ast.BinaryExpression).Left == left && result.(*ast.BinaryExpression).Right == callResult[ast.Expression]("slotExprFn", 0)
@@ -606,14 +656,16 @@ func lemma_parseFrame_trans(p *Parser) {
 // Assignment is right associative: the value is parsed from the lowest level again.
 //@ func (p *Parser) ParseAssignmentExpression(left)
 //@   props C11 C16 C02 C01 C13
-//@   use parseFrame ctxStable exprResult infixResult errorSites
+//@   use parseFrame ctxStable exprResult infixResult errorSites atToken
+//@   rank 45
 //@   ensures [wf@C11] implies(len(p.errors) == len(old(p.errors)) && !isNil(left), !isNil(result.(*ast.AssignmentExpression).Left) && !isNil(result.(*ast.AssignmentExpression).Value))
 //@   ensures [operand.level@C02,C03] ncalls("(*Parser).NextToken") == 1 && ncalls("(*Parser).ParseExpression") == 1 && ncalls("slotExprFn") == 0 && callOrder("(*Parser).NextToken", 0, "(*Parser).ParseExpression", 0)
 //@   ensures [node@C01,C08,C15] isType[*ast.AssignmentExpression](result) && !isNil(result) && eq(result.(*ast.AssignmentExpression).Token, old(p.CurrentToken)) && result.(*ast.AssignmentExpression).Left == left && result.(*ast.AssignmentExpression).Value == callResult[ast.Expression]("(*Parser).ParseExpression", 0)
 
 //@ func (p *Parser) ParseCompoundAssignmentExpression(left)
 //@   props C11 C16 C02 C01 C13
-//@   use parseFrame ctxStable exprResult infixResult errorSites
+//@   use parseFrame ctxStable exprResult infixResult errorSites atToken
+//@   rank 45
 //@   ensures [wf@C11] implies(len(p.errors) == len(old(p.errors)) && !isNil(left), !isNil(result.(*ast.CompoundAssignmentExpression).Left) && !isNil(result.(*ast.CompoundAssignmentExpression).Value))
 //@   ensures [operand.level@C02,C03] ncalls("(*Parser).NextToken") == 1 && ncalls("(*Parser).ParseExpression") == 1 && ncalls("slotExprFn") == 0 && callOrder("(*Parser).NextToken", 0, "(*Parser).ParseExpression", 0)
 //@   ensures [node@C01,C08,C15] isType[*ast.CompoundAssignmentExpression](result) && !isNil(result) && eq(result.(*ast.CompoundAssignmentExpression).Token, old(p.CurrentToken)) && result.(*ast.CompoundAssignmentExpression).Left == left && result.(*ast.CompoundAssignmentExpression).Value == callResult[ast.Expression]("(*Parser).ParseExpression", 0)
@@ -621,27 +673,31 @@ func lemma_parseFrame_trans(p *Parser) {
 
 //@ func (p *Parser) ParseCallExpression(left)
 //@   props C11 C16 C01 C13
-//@   use parseFrame ctxStable exprResult infixResult errorSites
+//@   use parseFrame ctxStable exprResult infixResult errorSites atToken
+//@   rank 45
 //@   ensures [wf@C11] implies(len(p.errors) == len(old(p.errors)) && !isNil(left), !isNil(result.(*ast.CallExpression).Function) && forall(0, len(result.(*ast.CallExpression).Arguments), func(k int) bool { return !isNil(result.(*ast.CallExpression).Arguments[k]) }))
 //@   ensures [node@C01,C08,C15] isType[*ast.CallExpression](result) && !isNil(result) && eq(result.(*ast.CallExpression).Token, old(p.CurrentToken)) && result.(*ast.CallExpression).Function == left
 
 //@ func (p *Parser) ParseMemberExpression(left)
 //@   props C11 C16 C02 C01 C13
-//@   use parseFrame ctxStable exprResult infixResult viaSlot errorSites
+//@   use parseFrame ctxStable exprResult infixResult viaSlot errorSites atToken
+//@   rank 45
 //@   ensures [wf@C11] implies(len(p.errors) == len(old(p.errors)) && !isNil(left), !isNil(result.(*ast.MemberExpression).Object) && !isNil(result.(*ast.MemberExpression).Property))
 //@   ensures [operand.level@C02] ncalls("(*Parser).NextToken") == 1 && ncalls("slotExprFn") == 1 && callOrder("(*Parser).NextToken", 0, "slotExprFn", 0) && callArg[int]("slotExprFn", 0, 1) == MEMBER && callArg[*Parser]("slotExprFn", 0, 0) == p
 //@   ensures [node@C01,C08,C15] isType[*ast.MemberExpression](result) && !isNil(result) && eq(result.(*ast.MemberExpression).Token, old(p.CurrentToken)) && result.(*ast.MemberExpression).Object == left && !result.(*ast.MemberExpression).Computed && result.(*ast.MemberExpression).Property == callResult[ast.Expression]("slotExprFn", 0)
 
 //@ func (p *Parser) ParseComputedMemberExpression(left)
 //@   props C11 C16 C02 C01 C13
-//@   use parseFrame ctxStable exprResult infixResult errorSites
+//@   use parseFrame ctxStable exprResult infixResult errorSites atToken
+//@   rank 45
 //@   ensures [wf@C11] implies(len(p.errors) == len(old(p.errors)) && !isNil(left) && !isNil(result), !isNil(result.(*ast.MemberExpression).Object) && !isNil(result.(*ast.MemberExpression).Property))
 //@   ensures [operand.level@C02] ncalls("(*Parser).ParseExpression") == 1 && ncalls("slotExprFn") == 0
 //@   ensures [node@C01,C08,C15] implies(!isNil(result), isType[*ast.MemberExpression](result) && eq(result.(*ast.MemberExpression).Token, old(p.CurrentToken)) && result.(*ast.MemberExpression).Object == left && result.(*ast.MemberExpression).Computed && result.(*ast.MemberExpression).Property == callResult[ast.Expression]("(*Parser).ParseExpression", 0))
 
 //@ func (p *Parser) ParseExpressionList(end)
 //@   props C11 C16 C13
-//@   use parseFrame ctxStable errorSites
+//@   use parseFrame ctxStable errorSites atToken
+//@   rank 44
 //@   ensures [wf@C11] implies(len(p.errors) == len(old(p.errors)), forall(0, len(result), func(k int) bool { return !isNil(result[k]) }))
 //@   loop 1 invariant [wf@C11] implies(len(p.errors) == len(old(p.errors)), forall(0, len(args), func(k int) bool { return !isNil(args[k]) }))
 //@   loop 1 invariant [frame] parserInv(p) && sameCtx(p.contextStack, old(p.contextStack)) && p.currentExpressionPrecedence == old(p.currentExpressionPrecedence) && isPrefixErr(old(p.errors), p.errors) && parserMeasure(p) <= old(parserMeasure(p))
@@ -650,6 +706,7 @@ func lemma_parseFrame_trans(p *Parser) {
 //@ func (p *Parser) ParseProgram()
 //@   props C11 C16 C13
 //@   use parseFrame viaSlot errorSites
+//@   rank 100
 //@   atcall slotStmtFn [ctx.stable@C16] sameCtx(p.contextStack, old(p.contextStack))
 //@   loop 1 invariant [frame] parserInv(p) && sameCtx(p.contextStack, old(p.contextStack)) && p.currentExpressionPrecedence == old(p.currentExpressionPrecedence) && isPrefixErr(old(p.errors), p.errors) && parserMeasure(p) <= old(parserMeasure(p))
 //@   loop 1 decreases parserMeasure(p) + b2i(p.CurrentToken.Type != token.EOF)
@@ -686,6 +743,8 @@ func lemma_parseFrame_trans(p *Parser) {
 //@ func (p *Parser) useStatementInterceptor$1(p)
 //@   props C04 C11 C16
 //@   use parseFrame stmtResult
+//@   rank 90
+//@   norank *
 //@   funcvar interceptor passthrough
 //@   funcvar next parser.slotStmtFn
 //@   ensures [once@C04] ncalls("passthrough:interceptor") == 1 && ncalls("slotStmtFn") == 1
@@ -704,6 +763,8 @@ func lemma_parseFrame_trans(p *Parser) {
 //@ func (p *Parser) useExpressionInterceptor$1(p, precedence)
 //@   props C04 C11 C16
 //@   use parseFrame exprResult
+//@   rank 65
+//@   norank *
 //@   funcvar interceptor passthrough
 //@   funcvar next parser.slotExprFn
 //@   ensures [once@C04] ncalls("passthrough:interceptor") == 1 && ncalls("slotExprFn") == 1
@@ -725,7 +786,8 @@ func lemma_parseFrame_trans(p *Parser) {
 
 //@ func (p *Parser) registerPrefixOperator$1()
 //@   props C05 C11 C16
-//@   use parseFrame exprResult
+//@   use parseFrame exprResult atToken
+//@   rank 50
 //@   funcvar createExpr callback
 //@   ensures [once@C05] ncalls("callback:createExpr") == 1
 
@@ -734,6 +796,8 @@ func lemma_parseFrame_trans(p *Parser) {
 //@ func (p *Parser) registerPrefixOperator$1$1()
 //@   props C05 C11 C16
 //@   use parseFrame exprResult
+//@   norank *
+//@   rank 48
 //@   ensures [operand@C05] ncalls("(*Parser).NextToken") == 1 && ncalls("slotExprFn") == 1 && callOrder("(*Parser).NextToken", 0, "slotExprFn", 0) && callArg[int]("slotExprFn", 0, 1) == UNARY && callArg[*Parser]("slotExprFn", 0, 0) == p
 //@   ensures [result@C05] result == callResult[ast.Expression]("slotExprFn", 0)
 
@@ -750,7 +814,8 @@ func lemma_parseFrame_trans(p *Parser) {
 
 //@ func (p *Parser) registerInfixOperator$1(left)
 //@   props C05 C11 C16
-//@   use parseFrame infixResult
+//@   use parseFrame infixResult atToken
+//@   rank 50
 //@   funcvar createExpr callback
 //@   ensures [once@C05] ncalls("callback:createExpr") == 1
 
@@ -759,6 +824,8 @@ func lemma_parseFrame_trans(p *Parser) {
 //@ func (p *Parser) registerInfixOperator$1$1()
 //@   props C05 C11 C16
 //@   use parseFrame exprResult
+//@   norank *
+//@   rank 48
 //@   ensures [operand@C05] ncalls("(*Parser).NextToken") == 1 && ncalls("slotExprFn") == 1 && callOrder("(*Parser).NextToken", 0, "slotExprFn", 0) && callArg[int]("slotExprFn", 0, 1) == specLevel(p.precedences, old(p.CurrentToken.Type)) && callArg[*Parser]("slotExprFn", 0, 0) == p
 //@   ensures [result@C05] result == callResult[ast.Expression]("slotExprFn", 0)
 
@@ -776,7 +843,8 @@ func lemma_parseFrame_trans(p *Parser) {
 // A registered postfix operator consumes no token itself (a call-level suffix).
 //@ func (p *Parser) registerPostfixOperator$1(left)
 //@   props C05 C11 C16
-//@   use parseFrame infixResult
+//@   use parseFrame infixResult atToken
+//@   rank 50
 //@   funcvar createExpr callback
 //@   ensures [once@C05] ncalls("callback:createExpr") == 1
 //@   ensures [no-token@C05] ncalls("(*Parser).NextToken") == 0 && lexer.LexPos(p.lexer) == old(lexer.LexPos(p.lexer))
